@@ -21,7 +21,8 @@ base, suite, demo = m.groups()
 ok = (base, suite, demo) == ("pass", "pass", "fail")
 res = {}
 if ok:
-    r = subprocess.run(["/verif/tools/seed/run.sh", f"{src}/patch.diff"] + checks.split(","), stdout=subprocess.PIPE, stderr=subprocess.STDOUT, text=True, errors="replace", env=dict(os.environ, TIER=os.environ.get("TIER", "quick"))).stdout
+    runner = "/verif/tools/seed/run_lane.sh" if os.environ.get("SEED_REPO") else "/verif/tools/seed/run.sh"
+    r = subprocess.run([runner, f"{src}/patch.diff"] + checks.split(","), stdout=subprocess.PIPE, stderr=subprocess.STDOUT, text=True, errors="replace", env=dict(os.environ, TIER=os.environ.get("TIER", "quick"))).stdout
     print(r)
     for line in r.splitlines():
         mm = re.match(r"(C\d\d) rc=(\d+) ?(.*)", line)
